@@ -31,8 +31,12 @@ def compiles(text: str) -> bool:
 
 
 def valid_fragment(text: str) -> bool:
-    """Validity of a possibly indented fragment is judged after dedent."""
-    return valid(text) or valid(textwrap.dedent(text))
+    """Validity of a possibly indented fragment: valid as it is, as the body of a block (the way Python reads indented code; lines inside multi-line literals
+    may be indented less, or with other characters, than the code), or after dedent."""
+    if valid(text) or valid(textwrap.dedent(text)):
+        return True
+    first = next((l for l in text.split("\n") if l.strip()), "")
+    return first[:1] in (" ", "\t") and valid("if True:\n" + text)
 
 
 def squash(text: str) -> str:
